@@ -243,13 +243,35 @@ class World:
             return a[1] is b[1]
         x, y = a[1], b[1]
         if isinstance(x, np.ndarray) or isinstance(y, np.ndarray):
-            return isinstance(x, np.ndarray) and isinstance(y, np.ndarray) and np.array_equal(x, y)
+            return isinstance(x, np.ndarray) and isinstance(y, np.ndarray) and np.array_equal(x, y, equal_nan=x.dtype.kind == "f" and y.dtype.kind == "f")
+        if isinstance(x, float) and isinstance(y, float) and x != x and y != y:
+            return type(x) is type(y)  # numpy scalars: 0.0 // 0.0 is nan, not ZeroDivisionError
         return type(x) is type(y) and x == y or (x == y and not isinstance(x, tuple))
+
+    def possible_errors(self, idx, seen=None):
+        """exception types that evaluating idx can surface when more than one input fails: which failing input is met first is an
+        evaluation-order detail (kafe2 refreshes stale children before it reads the parameter values) that the property does not fix"""
+        seen = set() if seen is None else seen
+        if idx in seen:
+            return set()
+        seen.add(idx)
+        out = set()
+        m = self.model_read(idx)
+        if m[0] == "err":
+            out.add(m[1])
+        r = self.recs[idx]
+        if r.kind != "fallback":
+            for c in r.children:
+                out |= self.possible_errors(c, seen)
+        return out
 
     def compare_read(self, idx, where):
         m = self.model_read(idx)
         g = self.real_read(idx)
         r = self.recs[idx]
+        if g[0] == "err" and m[0] == "err" and g[1] is not m[1] and g[1] in self.possible_errors(idx):
+            self.labels.add("several_failing_inputs")
+            return g
         if not self.same(g, m):
             if self.fallback_taint & (self.descendants(idx) | {idx}):
                 raise Violation("read-value:below-fallback-with-failed-alternative",
